@@ -74,7 +74,7 @@ def op_strategy(weights=None):
         "ph_insert": st.tuples(st.just("ph_insert"), I, I, I),
         "set_text": st.tuples(st.just("set_text"), I, I, st.integers(0, 4), T),
         "para_op": st.tuples(st.just("para_op"), I, I, st.integers(0, 5), T),
-        "fmt": st.tuples(st.just("fmt"), I, I, st.integers(0, 33), st.integers(0, 7)),
+        "fmt": st.tuples(st.just("fmt"), I, I, st.integers(0, 34), st.integers(0, 7)),
         "table_op": st.tuples(st.just("table_op"), I, I, st.integers(0, 9), st.integers(0, 5), st.integers(0, 5),
                               st.integers(0, 5), st.integers(0, 5)),
         "chart_fmt": st.tuples(st.just("chart_fmt"), I, I, st.integers(0, 27), st.integers(0, 6)),
@@ -336,7 +336,21 @@ class Interp:
             return "skipped"
         kind = [MSO_CONNECTOR.STRAIGHT, MSO_CONNECTOR.ELBOW, MSO_CONNECTOR.CURVE][k]
         def f():
-            info.update(added=c.add_connector(kind, x1, y1, x2, y2), slide=sl, container=c, depth=d, kind="cxn")
+            cx = c.add_connector(kind, x1, y1, x2, y2)
+            info.update(added=cx, slide=sl, container=c, depth=d, kind="cxn")
+            # half of the new connectors are attached to a shape of the slide right away: end first then begin,
+            # begin first then end, or one end only
+            how = (k + (abs(int(x1)) + abs(int(y2))) // 7) % 6
+            tgt = [s for s, _c, _d in iter_shapes(sl.shapes)
+                   if type(s).__name__ in ("Shape", "Picture") and not s.is_placeholder and _c is c]
+            if how < 3 and tgt:
+                t = tgt[(abs(int(x2)) // 3) % len(tgt)]
+                if how == 0:
+                    cx.end_connect(t, 1); cx.begin_connect(t, 3)
+                elif how == 1:
+                    cx.begin_connect(t, 0); cx.end_connect(t, 2)
+                else:
+                    cx.end_connect(t, 2)
         return self._call("add_connector", f)
 
     def op_add_picture(self, info, slide_i, cont_i, img_i, size_variant, as_stream):
@@ -662,6 +676,23 @@ class Interp:
                     sh.shadow.inherit = bool(v % 2)
             info.update(slide=sl, target=sh)
             return self._call("fmt_misc%d" % kind, f, rej + (NotImplementedError,))
+        if kind == 34:
+            # a connector's ends attached to shapes of its slide, in either order, re-attached, one end only
+            cx = self.pick(sl, shape_i, lambda s: type(s).__name__ == "Connector")
+            tgt = self.pick(sl, shape_i + v, lambda s: type(s).__name__ in ("Shape", "Picture") and not s.is_placeholder)
+            if cx is None or tgt is None:
+                return "skipped"
+            def f():
+                if v % 4 == 0:
+                    cx.end_connect(tgt, v % 4); cx.begin_connect(tgt, (v + 1) % 4)
+                elif v % 4 == 1:
+                    cx.begin_connect(tgt, 0); cx.end_connect(tgt, 2)
+                elif v % 4 == 2:
+                    cx.end_connect(tgt, 3)
+                else:
+                    cx.begin_connect(tgt, 1)
+            info.update(slide=sl, target=cx)
+            return self._call("fmt_connect", f, rej)
         if kind == 33:
             # text-frame insets at and beyond the ends of their 32-bit range (a:bodyPr/@lIns is an ST_Coordinate32)
             sh = self._text_target(sl, shape_i)
